@@ -1194,6 +1194,9 @@ type Bit struct {
 	ref        string
 	Position   int
 	extensions []*Extension
+
+	// positionSet tells a stated "position 0" from no position statement
+	positionSet bool
 }
 
 type Enum struct {
@@ -1204,6 +1207,9 @@ type Enum struct {
 	val        int
 	ifs        []*IfFeature
 	extensions []*Extension
+
+	// valSet tells a stated "value 0" (or a negative value) from no value statement
+	valSet bool
 }
 
 func (y *Enum) Value() int {
